@@ -6,7 +6,7 @@ from vlib.framework import PropCheck
 class C01(PropCheck):
     id = 'C01'
     extractors = ()
-    modules = ('WpModel.Props.C01', 'WpModel.Props.C01Trace')
+    modules = ('WpModel.Props.C01', 'WpModel.Props.C01Trace', 'WpModel.Props.C01Pm2', 'WpModel.Witness.C01Pm2')
     trusted_base = (
         'modelled, not verified: block.py block_level_layout/block_container_layout/_in_flow_layout/_linebox_layout/'
         '_break_line/find_earlier_page_break, page.py make_page/remake_page/make_all_pages as lean/WpModel/Model/'
@@ -89,7 +89,8 @@ class C01(PropCheck):
                 'float-fragment-duplicated': lambda: corpus_fails('float_fragment_duplicated'),
                 'column-span-loses-following-content': lambda: corpus_fails('column_span_loses'),
                 'footnote-in-columns-lost-or-duplicated': lambda: corpus_fails('footnote_in_columns'),
-                'table-in-columns-duplicates-rows': lambda: corpus_fails('table_in_columns_duplicates_rows')}
+                'table-in-columns-duplicates-rows': lambda: corpus_fails('table_in_columns_duplicates_rows'),
+                'stale-next-page-scatters-fragments': stale_next_page}
 
     def replay(self, data):
         inp = data.get('input', {})
@@ -102,6 +103,11 @@ class C01(PropCheck):
             pages = widegen.page_words(docs.render(meta['html']))
             return wide_trace.conserve_violation({'groups': meta['groups'], 'pages': pages}, 'bad')
         return None
+
+
+def stale_next_page():
+    from props import c03
+    return c03.stale_next_page()[1]
 
 
 def fixed_height_drops():
